@@ -18,6 +18,7 @@ def sh(cmd, cwd=None, timeout=1200, env=None):
 
 def run_demo(out, wt, flt):
     if os.path.exists(os.path.join(out, "demo.sh")):
+        sh("timeout 900 cargo build --offline", cwd=wt)     # scripts drive the built binary: it must be the tree's own
         rc, o = sh("timeout 900 bash %s %s" % (os.path.join(out, "demo.sh"), wt), cwd=wt)
         return rc == 0, o[-1500:]
     rc, o = sh("git apply %s" % os.path.join(out, "demo.patch"), cwd=wt)
